@@ -321,6 +321,62 @@ fn scenario(name: &str, aggressive: bool, updaters: Vec<Vec<Upd>>, flushes: usiz
     }
 }
 
+/// First use of a key from two threads at once: each registers the same new counter / gauge / histogram key through the
+/// recorder and updates through its own handle, while a third thread flushes. Every increment and every histogram value
+/// is sent exactly once over all flushes (three more follow at the end), whichever registration came first.
+struct SReg {
+    drv: Mutex<Driver>,
+    rec: metrics_exporter_dogstatsd::DogStatsDRecorder,
+    sent: Mutex<Vec<Msg>>,
+}
+fn registration_scenario() -> Scenario<SReg> {
+    let flush = |s: &SReg| {
+        let payloads = s.drv.lock().unwrap().flush_once();
+        for p in payloads {
+            for line in p.split_inclusive(|b| *b == b'\n') {
+                if let Ok(m) = statsd::parse_message(line) {
+                    s.sent.lock().unwrap().push(m);
+                }
+            }
+        }
+    };
+    Scenario {
+        name: "t0 register_counter(k).increment(3), register_histogram(k).record(1.5) || t1 register_counter(k).increment(4), register_histogram(k).record(2.5) || flusher x1; 3 final flushes".into(),
+        setup: Box::new(|| {
+            let (drv, rec) = Driver::new(false, false, 16, true, vec![], None, 8192, false);
+            SReg { drv: Mutex::new(drv), rec, sent: Mutex::new(Vec::new()) }
+        }),
+        bodies: vec![
+            body(|s: &SReg| {
+                s.rec.register_counter(&Key::from_name("cnt"), &META).increment(3);
+                s.rec.register_histogram(&Key::from_name("his"), &META).record(1.5);
+            }),
+            body(|s: &SReg| {
+                s.rec.register_counter(&Key::from_name("cnt"), &META).increment(4);
+                s.rec.register_histogram(&Key::from_name("his"), &META).record(2.5);
+            }),
+            body(move |s: &SReg| flush(s)),
+        ],
+        check: Box::new(move |s, _| {
+            for _ in 0..3 {
+                flush(s);
+            }
+            let sent = s.sent.lock().unwrap().clone();
+            let csum: u64 = sent.iter().filter(|m| m.name == "cnt" && m.ty == 'c').flat_map(|m| m.values.iter()).map(|v| v.parse::<u64>().unwrap_or(u64::MAX / 8)).sum();
+            let mut hv: Vec<String> = sent.iter().filter(|m| m.name == "his").flat_map(|m| m.values.iter().cloned()).collect();
+            hv.sort();
+            if csum != 7 {
+                return vsched::fail("counter-sum-wrong", format!("two threads registered the same new counter key and incremented by 3 and by 4 through their own handles: the deltas sent over all flushes add up to {} (expected 7); sent: {:?}", csum, sent.iter().filter(|m| m.name == "cnt").map(|m| m.values.clone()).collect::<Vec<_>>()));
+            }
+            if hv != vec!["1.5".to_string(), "2.5".to_string()] {
+                return vsched::fail("histogram-value-not-sent-exactly-once", format!("two threads registered the same new histogram key and recorded 1.5 and 2.5 through their own handles: values sent over all flushes: {:?}", hv));
+            }
+            Verdict::Ok(format!("{}", sent.len()))
+        }),
+        termination_promised: true,
+    }
+}
+
 // ------------------------------------------------------------------ E4: the real forwarder thread into real sockets
 fn recv_all(kind: &str, path: &std::path::Path, want_msgs: usize, cfg: &serde_json::Value) -> Result<Vec<Vec<u8>>, String> {
     let _ = std::fs::remove_file(path);
@@ -1147,8 +1203,10 @@ fn parts(ctx: &Ctx) -> Vec<PartSpec> {
     v.push(PartSpec::new(&format!("e3-seq-d{}-conservative-dist", d), json!({"seq": d, "aggressive": false, "as_dist": true})).budget(if ctx.quick() { 150.0 } else { 2400.0 }));
     v.push(PartSpec::new(&format!("e3-seq-d{}-aggressive-hist", d - 1), json!({"seq": d - 1, "aggressive": true, "as_dist": false})).budget(if ctx.quick() { 150.0 } else { 2400.0 }));
     if ctx.quick() {
+        v.push(PartSpec::new("e1-first-registration-race-pb2", json!({"e1reg": 2})).cpus("0"));
         v.extend([e1("inc", 2), e1("abs", 2), e1("gauge", 2), e1("gauge-arith", 2), e1("hist", 2), e1("inc-aggressive", 1)]);
     } else {
+        v.push(PartSpec::new("e1-first-registration-race-pb3", json!({"e1reg": 3})).cpus("0").budget(1500.0));
         v.extend([e1("inc", 4).budget(1500.0), e1("abs", 4).budget(1500.0), e1("gauge", 4).budget(1500.0), e1("gauge-arith", 3).budget(1500.0), e1("hist", 3).budget(1500.0), e1("inc2", 3).budget(1500.0), e1("abs3", 3).budget(1500.0), e1("mixed", 3).budget(1500.0), e1("inc-aggressive", 2)]);
     }
     v
@@ -1180,6 +1238,10 @@ fn run(ctx: &Ctx, spec: &PartSpec) -> PartResult {
         seq_part(ctx, &mut res, d as usize, spec.arg["aggressive"].as_bool().unwrap_or(false), spec.arg["as_dist"].as_bool().unwrap_or(true));
         return res;
     }
+    if let Some(pb) = spec.arg["e1reg"].as_u64() {
+        vsched::explore(&registration_scenario(), &Cfg { max_bound: pb as usize, horizon: 20000 }, ctx, &mut res);
+        return res;
+    }
     let pb = spec.arg["pb"].as_u64().unwrap_or(2) as usize;
     let scn = match spec.arg["e1"].as_str().unwrap_or("") {
         "inc" => scenario("updater inc(3),inc(4) || flusher x2; 1 initial + 3 final flushes", false, vec![vec![Upd::Inc(3), Upd::Inc(4)]], 2),
@@ -1200,7 +1262,7 @@ fn main() {
     driver::main(CheckDef {
         prop: "C10",
         level: "model_checking",
-        rule: "E1: every SC interleaving (pb-bounded; 1 registry shard) of updater threads (increment / absolute / set / record through real handles) with a flusher thread driving the real State::flush + PayloadWriter, one initial and three final sequential flushes; every payload parsed by an independent DogStatsD parser; oracle: delta conservation, per-flush upper bound, zero discipline, most-recent gauge, histogram exactly-once, timestamp per documented mode; E3: every sequence (depth 5 quick / 7 thorough) over {flush, ci.increment(3), ci.increment(0), ci.increment(u64::MAX - 7), ca.absolute(next), a second counter of the same name with a label, gau.set, gau.increment, gau.decrement, his.record, 70 records at once} + 2 final flushes, sequentially, against an exact reference model of what each flush must send; E4: transports {unix stream, unixgram, udp} x modes x prefix/labels/distribution configurations through the real forwarder thread into real sockets (framing, one message per datagram/frame, timestamp), and a fault history on the stream transport (agent stalls, a payload larger than the socket buffer is cut short by the write timeout, agent resumes: every stream received is whole well-formed frames), and a flush interval of 1 ms against 170 metrics updated in bursts (everything adds up at the agent); distinct = distinct send sequences / received message sets; E3 many keys: 10 keys of every kind (two of them in the exporter's telemetry namespace) written and flushed 3 times on 8 fresh exporters for 3 prefix / global-label configurations: per full wire name the counter deltas add up to the increments, histogram values arrive once, nothing arrives under any other name",
+        rule: "E1: every SC interleaving (pb-bounded; 1 registry shard) of updater threads (increment / absolute / set / record through real handles) with a flusher thread driving the real State::flush + PayloadWriter, one initial and three final sequential flushes; every payload parsed by an independent DogStatsD parser; oracle: delta conservation, per-flush upper bound, zero discipline, most-recent gauge, histogram exactly-once, timestamp per documented mode; E3: every sequence (depth 5 quick / 7 thorough) over {flush, ci.increment(3), ci.increment(0), ci.increment(u64::MAX - 7), ca.absolute(next), a second counter of the same name with a label, gau.set, gau.increment, gau.decrement, his.record, 70 records at once} + 2 final flushes, sequentially, against an exact reference model of what each flush must send; E4: transports {unix stream, unixgram, udp} x modes x prefix/labels/distribution configurations through the real forwarder thread into real sockets (framing, one message per datagram/frame, timestamp), and a fault history on the stream transport (agent stalls, a payload larger than the socket buffer is cut short by the write timeout, agent resumes: every stream received is whole well-formed frames), and a flush interval of 1 ms against 170 metrics updated in bursts (everything adds up at the agent); distinct = distinct send sequences / received message sets; E3 many keys: 10 keys of every kind (two of them in the exporter's telemetry namespace) written and flushed 3 times on 8 fresh exporters for 3 prefix / global-label configurations: per full wire name the counter deltas add up to the increments, histogram values arrive once, nothing arrives under any other name; E1 first registration: two threads register the same new counter and histogram key through the recorder and update through their own handles while a third flushes: every increment and value is sent exactly once",
         assumptions: &["E1: sequential consistency; the flush is driven synchronously (Driver::flush_once) instead of by the sleeping forwarder thread", "E4: the forwarder thread's flush cadence is timing-driven (40 ms); only framing/content/timestamps are judged there, with a 20 s timeout reported as a violation of 'the agent socket receives these messages'"],
         parts,
         run,
